@@ -73,7 +73,7 @@ fn secrets_of_len(n: usize) -> Vec<String> {
     v
 }
 
-fn cap_list(_t: Tier) -> Vec<Cap> {
+pub fn cap_list(_t: Tier) -> Vec<Cap> {
     let mut out = Vec::new();
     for n in 0..=60usize {
         for s in secrets_of_len(n) {
